@@ -57,6 +57,8 @@ func (ftp *Fs) ListDir(path string) []os.FileInfo {
 		return []os.FileInfo{}
 	}
 
+	defer dir.Close()
+
 	list, err := dir.Readdir(-1)
 	if err != nil {
 		return []os.FileInfo{}
